@@ -1015,8 +1015,19 @@ type RefuseObs struct {
 	DialOK    bool         `json:"dial_ok"`             // the dial of a selected destination can succeed
 }
 
+// MisObs: after hellos whose read failed with an I/O error, several good
+// connections at the same time; what each client was answered.
+type MisObs struct {
+	Round   int    `json:"round"`
+	Tag     string `json:"tag"`
+	Expect  string `json:"expect"`  // endpoint
+	Reply   string `json:"reply"`   // "EP <endpoint> GOT <tag>"
+	Payload string `json:"payload"` // what the endpoint said about the payload it read: ok | foreign:<..> | short
+}
+
 type RefuseCase struct {
 	Mode     string      `json:"mode"`
+	Mis      []MisObs    `json:"mis,omitempty"`
 	Obs      []RefuseObs `json:"obs"`
 	SetupErr string      `json:"setup_err,omitempty"`
 }
@@ -1058,7 +1069,29 @@ func (rw *refuseWorld) handler(ep string, conn net.Conn) {
 	}})
 	if _, err := e2e.ReadRecord(br); err == nil {
 		if line, err := br.ReadString('\n'); err == nil {
-			fmt.Fprintf(conn, "EP %s GOT %s\n", ep, strings.TrimSuffix(line, "\n"))
+			tag := strings.TrimSuffix(line, "\n")
+			fmt.Fprintf(conn, "EP %s GOT %s\n", ep, tag)
+			if strings.HasPrefix(tag, "MIS-") {
+				// a payload of the connection's own tag follows: every byte must be it
+				want := burstOf(tag, misPayload)
+				got := make([]byte, misPayload)
+				verdict := "ok"
+				if n, err := io.ReadFull(br, got); err != nil {
+					verdict = fmt.Sprintf("short:%d", n)
+				} else if !bytes.Equal(got, want) {
+					verdict = "foreign"
+					if i := bytes.Index(got, []byte("MIS-")); i >= 0 {
+						e := i
+						for e < len(got) && got[e] != '|' {
+							e++
+						}
+						if string(got[i:e]) != tag {
+							verdict = "foreign:" + string(got[i:e])
+						}
+					}
+				}
+				fmt.Fprintf(conn, "PAYLOAD %s\n", verdict)
+			}
 		}
 	}
 	io.Copy(io.Discard, br)
@@ -1078,6 +1111,61 @@ func (rw *refuseWorld) totals() (int64, int64, string) {
 	}
 	sort.Strings(where)
 	return a, b, strings.Join(where, " ")
+}
+
+const misPayload = 8192
+
+// misRounds: hellos whose read fails with an I/O error, then four good
+// connections at the same time to two endpoints, tagged payloads.
+func (rw *refuseWorld) misRounds(full []byte, hello func(string) []byte, rounds int) []MisObs {
+	var out []MisObs
+	abort := func(payload []byte) {
+		if c, err := rw.w.DialFront(); err == nil {
+			c.Write(payload)
+			c.(*net.TCPConn).CloseWrite()
+			c.SetReadDeadline(time.Now().Add(3 * time.Second))
+			io.Copy(io.Discard, c)
+			c.Close()
+		}
+	}
+	big := append([]byte{22, 3, 1, 0x40, 0x01}, bytes.Repeat([]byte{0xAB}, 200)...)
+	for round := 0; round < rounds; round++ {
+		abort(full[:3])
+		abort(full[:len(full)/2])
+		abort(big)
+		obs := make([]MisObs, 4)
+		var wg sync.WaitGroup
+		start := make(chan struct{})
+		for k := 0; k < 4; k++ {
+			wg.Add(1)
+			go func(k int) {
+				defer wg.Done()
+				ep := []string{"/ep0", "/ep1"}[k%2]
+				tag := fmt.Sprintf("MIS-%d-%d", round, k)
+				o := MisObs{Round: round, Tag: tag, Expect: ep}
+				defer func() { obs[k] = o }()
+				<-start
+				c, err := rw.w.DialFront()
+				if err != nil {
+					o.Reply = "front-dial: " + err.Error()
+					return
+				}
+				defer c.Close()
+				c.SetDeadline(time.Now().Add(8 * time.Second))
+				msg := append(append([]byte{}, hello([]string{"site0.example", "site1.example"}[k%2])...), []byte(tag+"\n")...)
+				c.Write(append(msg, burstOf(tag, misPayload)...))
+				br := bufio.NewReader(c)
+				l1, _ := br.ReadString('\n')
+				l2, _ := br.ReadString('\n')
+				o.Reply = strings.TrimSuffix(l1, "\n")
+				o.Payload = strings.TrimPrefix(strings.TrimSuffix(l2, "\n"), "PAYLOAD ")
+			}(k)
+		}
+		close(start)
+		wg.Wait()
+		out = append(out, obs...)
+	}
+	return out
 }
 
 type refuseScenario struct {
@@ -1316,6 +1404,7 @@ func runRefuse(r *hx.Rng, mode string) *RefuseCase {
 	for _, sc := range scA {
 		res.Obs = append(res.Obs, rwA.run("A", sc))
 	}
+	res.Mis = rwA.misRounds(full, hello, 4)
 	rwA.w.Close()
 
 	// ---- world B: a server without lookup ("server not accepting")
